@@ -45,6 +45,14 @@ func c04Etx(i int, kind int, tag string) *types.Transaction {
 		rw := vBigN(tag+"Reward", 8)
 		vAssume(rw.Cmp(big.NewInt(30)) < 0)
 		return types.NewTx(&types.ExternalTx{Value: rw, To: &qiTo, Sender: qiTo, EtxType: types.CoinbaseType, OriginatingTxHash: origin, ETXIndex: uint16(i), Gas: 21000, Data: append([]byte{lb}, make([]byte, 32)...)})
+	case 5: // refused Quai->Qi conversion coming back: the Quai is credited back to its sender
+		return types.NewTx(&types.ExternalTx{Value: vBigN(tag+"Refund", 64), To: &qiTo, Sender: thisZoneQuai, EtxType: types.ConversionRevertType, OriginatingTxHash: origin, ETXIndex: uint16(i), Gas: uint64(vU32(tag + "Gas"))})
+	case 6: // refused Qi->Quai conversion coming back: the Qi is re-created for the refund address carried in the data
+		v := vBigN(tag+"RefundQits", 16)
+		vAssume(v.Cmp(big.NewInt(1000)) >= 0 && v.Cmp(big.NewInt(1030)) < 0)
+		data := make([]byte, 22)
+		copy(data[2:22], qiTo.Bytes())
+		return types.NewTx(&types.ExternalTx{Value: v, To: &quaiTo, Sender: common.ZeroAddress(qiLoc), EtxType: types.ConversionRevertType, OriginatingTxHash: origin, ETXIndex: uint16(i), Gas: uint64(vU32(tag + "Gas")), Data: data})
 	default: // Quai->Qi conversion (sender and beneficiary in this zone): value in qits, split into denominations
 		v := vBigN(tag+"Qits", 8)
 		vAssume(v.Cmp(big.NewInt(30)) < 0)
@@ -55,8 +63,9 @@ func c04Etx(i int, kind int, tag string) *types.Transaction {
 // H-C04-c: an inbound ETX is executed at its destination exactly once, with exactly its value, by the
 // real StateProcessor.Process (shell of H-C07-p; zone, height 2, pre-TimeToStartTx regime, before and
 // after the controller kick-in). The queue holds 1..2 ETXs of arbitrary kind (Qi transfer from
-// another zone; plain Quai coinbase; Qi->Quai conversion; Qi coinbase; Quai->Qi conversion of < 30
-// qits with arbitrary gas), the block carries all of them in order. Then: the block is accepted,
+// another zone; plain Quai coinbase; Qi->Quai conversion; Qi coinbase; a refused conversion coming back in
+// either direction; Quai->Qi conversion of < 30
+// qits with arbitrary gas; a refused conversion coming back in either direction), the block carries all of them in order. Then: the block is accepted,
 // every ETX was popped (queue empty) and has exactly one receipt; a Qi transfer creates exactly one
 // output of its denomination at (originating hash, index) for its recipient, unlocked; a Quai->Qi
 // conversion creates outputs under the ETX hash, all for its recipient, all locked for the
@@ -128,7 +137,7 @@ func c04Delivery(n int) {
 	for i := 0; i < n; i++ {
 		tag := "etx" + string(rune('A'+i))
 		if i == 0 {
-			kinds[i] = vLen(tag+"Kind", 4)
+			kinds[i] = vLen(tag+"Kind", 6)
 		} else {
 			kinds[i] = vLen(tag+"Kind", 3)
 		}
@@ -199,6 +208,25 @@ func c04Delivery(n int) {
 				want := params.CalculateCoinbaseValueWithLockup(new(big.Int).Set(etx.Value()), etx.Data()[0], 2)
 				vAssert("qi-coinbase/total-equals-adjusted-reward", total.Cmp(want) == 0)
 			}
+		case 5:
+			// refund in Quai: exactly the ETX value is credited to the original sender, nothing is created
+			vAssert("refund-quai/successful", r.Status == types.ReceiptStatusSuccessful)
+			a, _ := etx.ETXSender().InternalAddress()
+			vAssert("refund-quai/sender-credited-exactly", statedb.GetBalance(a).Cmp(etx.Value()) == 0)
+			gasSum += params.QiToQuaiConversionGas
+		case 6:
+			// refund in Qi: outputs for the refund address, locked for the conversion period, never
+			// more than the refunded amount
+			total := new(big.Int)
+			for ci < len(c04Created) && c04Created[ci].hash == etx.Hash() {
+				c := c04Created[ci]
+				ci++
+				vAssert("refund-qi/recipient-and-lock", string(c.entry.Address) == string(etx.Data()[2:22]) && c.entry.Lock != nil && c.entry.Lock.Uint64() == 2+params.ConversionLockPeriod)
+				total.Add(total, types.Denominations[c.entry.Denomination])
+				gasSum += params.CallValueTransferGas
+			}
+			vAssert("refund-qi/never-more-than-refunded", total.Cmp(etx.Value()) <= 0)
+			vAssert("refund-qi/receipt-gas-within-etx-gas", r.GasUsed <= etx.Gas())
 		default:
 			total := new(big.Int)
 			k := uint16(0)
